@@ -504,9 +504,23 @@ private:
                     case 't':
                         output.push_back('\t');
                         break;
-                    case 'u':
-                        output.append(parse_unicode_escape());
+                    case 'u': {
+                        unsigned int codepoint = parse_unicode_escape();
+                        // A high surrogate followed by an escaped low surrogate is one code point (RFC 8259, section 7).
+                        if (codepoint >= 0xD800 && codepoint <= 0xDBFF && pos_ + 1 < input_.size() &&
+                            input_[pos_] == '\\' && input_[pos_ + 1] == 'u') {
+                            const std::size_t rewind = pos_;
+                            pos_ += 2;
+                            const unsigned int low = parse_unicode_escape();
+                            if (low >= 0xDC00 && low <= 0xDFFF) {
+                                codepoint = 0x10000u + ((codepoint - 0xD800u) << 10) + (low - 0xDC00u);
+                            } else {
+                                pos_ = rewind;
+                            }
+                        }
+                        append_utf8(codepoint, output);
                         break;
+                    }
                     default:
                         throw std::runtime_error("Invalid escape sequence in string");
                 }
@@ -517,7 +531,7 @@ private:
         return output;
     }
 
-    std::string parse_unicode_escape() {
+    unsigned int parse_unicode_escape() {
         if (pos_ + 4 > input_.size()) {
             throw std::runtime_error("Truncated unicode escape");
         }
@@ -536,9 +550,7 @@ private:
                 throw std::runtime_error("Invalid unicode escape");
             }
         }
-        std::string utf8;
-        append_utf8(codepoint, utf8);
-        return utf8;
+        return codepoint;
     }
 
     static void append_utf8(unsigned int codepoint, std::string& out) {
